@@ -899,6 +899,8 @@ func genJoin(g GenCtx, kind string, overrun bool) *Join {
 		// match expressions (label-selector kinds; plain-map kinds ignore them): selectors
 		// made only of negative requirements select objects that lack the key
 		{"_expr": "tier notin x"}, {"_expr": "!tier"}, {"app": "a", "_expr": "tier notin y"}, {"_expr": "app in a|b;!App"},
+		// value lists that grow and shrink around each other
+		{"_expr": "app in a|b"}, {"_expr": "app in a"}, {"_expr": "app in b"}, {"_expr": "tier notin x|y"},
 		// fields that are not part of the selection rule: a workload scaled to zero still selects
 		{"app": "a", "_replicas": "0"}, {"app": "b", "_replicas": "0"}, {"app": "a", "_replicas": "3"}}
 	ns := func() string { return pick(rng, "n1", "n1", "n2") }
